@@ -302,8 +302,8 @@ GUARDS = [
     (EQ, "Equilibrium.makeConnection", "lower edge not already connected", ['["lower"]isnotNone'], None, False),
     (EQ, "Equilibrium.makeConnection", "nx equal across a connection", ["nx[lowerSegment]!=uRegion.nx[upperSegment]"], None, False),
     (MESH, "Mesh.__init__", "equilibrium and mesh options consistent", ["self.equilibrium.user_options[key]!=self.user_options[key]"], "self.user_options =", False),
-    (MESH, "BoutMesh.__init__", "all regions have the same nx list", ["r.nx==eq_region0.nx"], None, False),
-    (MESH, "BoutMesh.__init__", "all segments of a region have the same ny", ["region.ny(i)==this_ny"], "this_ny =", False),
+    (MESH, "BoutMesh.__init__", "all regions have the same nx list", [".nx==eq_region0.nx"], None, False),
+    (MESH, "BoutMesh.__init__", "all segments of a region have the same ny", ["region.ny(", ")==this_ny"], "this_ny =", False),
     (MESH, "MeshRegion.geometry1", "Bp sign consistent (negative Bp)", ["self.bpsign>0.0"], None, False),
     (MESH, "MeshRegion.geometry1", "Bp sign consistent (positive Bp)", ["self.bpsign<0.0"], None, False),
     (MESH, "MeshRegion.calcMetric", "shiftedmetric=False refused", ["notself.user_options.shiftedmetric"], None, False),
@@ -490,7 +490,7 @@ def r3(prog, rep, sch):
             continue  # a utility that does not generate a grid
         n += 1
         name = os.path.basename(rel)
-        ok = info["guard"] is not None and info["guard"] < info["build"] and info["unused_def"] == "[optforoptinoptionsifoptnotinpossible_options]"
+        ok = info["guard"] is not None and info["guard"] < info["build"] and info["unused_def"] == K("[opt for opt in options if opt not in possible_options]")
         rep.ob("R3", "%s rejects unknown options (raise) before building equilibrium or mesh" % name, ok, info["main"].site(),
                "no `if unused_options != []: raise` before the first construction" if not ok else "", key="cli/%s/unknown-check" % name)
         if info["guard"] is not None:
